@@ -629,7 +629,42 @@ func (f *frame) checkInvariants(l *loopInfo, st *State, kind string, n *node) {
 	}
 }
 
+// rangeIndexFact: go/ssa lowers `for i, v := range slice` to a hidden counter
+// (local "rangeindex", initialised to -1, incremented and compared with the
+// length at the loop head). The pattern is recognised syntactically and its
+// structural invariant -1 <= rangeindex <= len-1 is assumed at the cut.
+func (f *frame) rangeIndexFact(l *loopInfo, st *State, n *node) {
+	if l.Head.Comment != "rangeindex.loop" || len(l.Head.Instrs) < 5 {
+		return
+	}
+	ld, ok1 := l.Head.Instrs[0].(*ssa.UnOp)
+	add, ok2 := l.Head.Instrs[1].(*ssa.BinOp)
+	sto, ok3 := l.Head.Instrs[2].(*ssa.Store)
+	cmp, ok4 := l.Head.Instrs[3].(*ssa.BinOp)
+	if !ok1 || !ok2 || !ok3 || !ok4 {
+		return
+	}
+	a, ok := ld.X.(*ssa.Alloc)
+	if !ok || a.Comment != "rangeindex" || sto.Addr != a || sto.Val != add || add.X != ld || cmp.X != add || cmp.Op != token.LSS {
+		return
+	}
+	one, isC := add.Y.(*ssa.Const)
+	if !isC || one.Int64() != 1 || add.Op != token.ADD {
+		return
+	}
+	if in, isInstr := cmp.Y.(ssa.Instruction); isInstr && l.Body[in.Block()] {
+		return
+	}
+	ri, live := st.locals[a]
+	if !live {
+		return
+	}
+	ln := f.get(cmp.Y, n, st).One()
+	f.x.assume(st.pc, And(Le(Num(-1), ri.One()), Le(ri.One(), Sub(ln, Num(1))), Le(Num(0), ln)), "range index pattern")
+}
+
 func (f *frame) assumeInvariants(l *loopInfo, st *State, n *node) {
+	f.rangeIndexFact(l, st, n)
 	for _, inv := range l.Spec.Invariants {
 		sc := f.invCtx(l, st, n)
 		f.x.assume(st.pc, sc.evalBool(inv.Expr), fmt.Sprintf("invariant loop %d", l.Ordinal))
